@@ -68,6 +68,19 @@ class Angle(Reparameterisation):
         else:
             self._zero_bound = False
 
+        # The inverse uses arctan2 which returns angles in (-pi, pi], if the
+        # rescaled angles are not all in this interval (and the lower bound
+        # is not zero) they must be wrapped back onto the prior bounds.
+        lower, upper = self.scale * np.array(
+            self.prior_bounds[self.angle], dtype=float
+        )
+        if not self._zero_bound and (lower < -np.pi or upper > np.pi):
+            # Wrap to an interval of length 2pi centred on the rescaled
+            # bounds, so that the branch cut is as far as possible from them
+            self._wrap_lower = 0.5 * (lower + upper) - np.pi
+        else:
+            self._wrap_lower = None
+
         self.prime_parameters = [self.angle + "_x", self.angle + "_y"]
         self.requires = []
 
@@ -155,13 +168,14 @@ class Angle(Reparameterisation):
                 / self.scale
             )
         else:
-            x[self.parameters[0]] = (
-                np.arctan2(
-                    x_prime[self.prime_parameters[1]],
-                    x_prime[self.prime_parameters[0]],
-                )
-                / self.scale
+            angle = np.arctan2(
+                x_prime[self.prime_parameters[1]],
+                x_prime[self.prime_parameters[0]],
             )
+            wrap_lower = getattr(self, "_wrap_lower", None)
+            if wrap_lower is not None:
+                angle = (angle - wrap_lower) % (2.0 * np.pi) + wrap_lower
+            x[self.parameters[0]] = angle / self.scale
 
         log_j -= np.log(x[self.parameters[1]])
         x, x_prime, log_j = self._inverse_rescale_angle(x, x_prime, log_j)
@@ -196,7 +210,9 @@ class ToCartesian(Angle):
         logger.debug(f"Using mode: {self.mode}")
 
         self._zero_bound = False
-        self._k = self.prior_bounds[self.parameters[0]][1]
+        self._wrap_lower = None
+        # Normalisation constant for the prime prior, must be positive
+        self._k = np.ptp(self.prior_bounds[self.parameters[0]])
 
     def _rescale_angle(
         self, x, x_prime, log_j, compute_radius=False, **kwargs
